@@ -424,26 +424,41 @@ def r5(R):
     seen = [0]
 
     def edge(node, st, lab, tgt):
+        open_, failed = st
         if lab == 'e':
-            return st
+            # an exception while the transaction is open: copying it failed
+            return (open_, failed or open_)
         for op in F.ops(node):
             if op.kind == 'call' and op.path:
                 if op.path[-1] == 'tpc_begin':
                     seen[0] += 1
-                    st = True
+                    open_, failed = True, False
                 elif op.path[-1] in ('tpc_finish', 'tpc_abort'):
-                    st = False
-        return st
+                    open_ = False
+        return (open_, failed)
 
     def at(node, st):
-        if st and (node.id == g.exit_return or (
+        open_, failed = st
+        if open_ and (node.id == g.exit_return or (
                 node.kind == 'loophead' and node.ast in f.node.body)):
             return Violation('the recovery loop can move on (or return) with '
                              'a destination transaction still open: the next '
                              'tpc_begin blocks for ever')
+        # a transaction that was copied without any failure is committed,
+        # whatever it contains (also when it has no data records at all)
+        if open_ and not failed:
+            for op in F.ops(node):
+                if op.kind == 'call' and op.path and \
+                        op.path[-1] == 'tpc_abort':
+                    return Violation(
+                        'the recovery tool aborts a destination transaction '
+                        'although nothing failed while it was copied (for '
+                        'instance because it has no data records): a '
+                        'transaction of an undamaged input is missing from '
+                        'the output, ids and lastTransaction() differ')
         return st
 
-    vs, stats = explore(g, False, at=at, edge=edge)
+    vs, stats = explore(g, (False, False), at=at, edge=edge)
     R.count(stats)
     R.require(seen[0], 'recover no longer calls tpc_begin')
     for v in vs:
